@@ -713,6 +713,8 @@ class Interp:
         vals = mod.assigns(ident)
         if vals:
             return self.modconst(mod, ident, depth)
+        if ident == "__name__":
+            return getattr(mod, "dotted", None) or mod.rel[:-3].replace("/", ".")
         if ident in SAFE_BUILTINS:
             return SAFE_BUILTINS[ident]
         if ident in ("isinstance", "getattr", "hasattr", "callable", "type", "issubclass", "print", "super", "setattr", "next", "iter"):
